@@ -80,7 +80,7 @@ def clsdef(touch: bool, oc: bool, c1: int, v1: int, c2: int, v2: int) -> None:
 clsdef.ranges = lambda consts: dict(c1=(-2, 2), c2=(-2, 2), v1=(-2, 2), v2=(-2, 2))
 
 
-def dupreg(kwmode: bool, oc: bool, qd: bool, v1: int, v2: int, v3: int, un: int) -> None:
+def dupreg(kwmode: bool, oc: bool, qd: bool, v1: int, v2: int, v3: int, un: int, cp: int = 0, route: int = 0) -> None:
     """The same callback registered twice with identical settings is two watchers: every qualifying assignment calls it
     twice; after unwatch of one handle (the first or the second) once; after unwatch of both never."""
     import param
@@ -97,12 +97,27 @@ def dupreg(kwmode: bool, oc: bool, qd: bool, v1: int, v2: int, v3: int, un: int)
     reg = p.param.watch_values if kwmode else p.param.watch
     w1 = reg(cb, ['a'], onlychanged=oc, queued=qd)
     w2 = reg(cb, ['a'], onlychanged=oc, queued=qd)
-    info = {'duplicate_registration': True, 'kw': kwmode, 'onlychanged': oc, 'queued': qd}
+    cp = pick(cp, 0, 2)
+    route = pick(route, 0, 2)
+    if cp:
+        # the assignments go to a copy of the object (deepcopy / pickle-free shallow route): two registrations stay two
+        import copy as _copy
+        with untraced():
+            p = _copy.deepcopy(p) if cp == 1 else _copy.copy(p)
+    info = {'duplicate_registration': True, 'kw': kwmode, 'onlychanged': oc, 'queued': qd, 'copied': cp, 'route': route}
     before = p.a
-    p.a = v1
+    if route == 0:
+        p.a = v1
+    elif route == 1:
+        p.param.update(a=v1)
+    else:
+        with param.parameterized.batch_call_watchers(p):
+            p.a = v1
     fire = (not oc) or (True if before != v1 else False)
     check('C03.once', len(calls) == (2 if fire else 0), dict(info, calls=len(calls), step=0))
     un = pick(un, 0, 1)
+    if cp:
+        return          # the handles belong to the original object
     p.param.unwatch(w1 if un == 0 else w2)
     n = len(calls)
     before = p.a
@@ -115,7 +130,7 @@ def dupreg(kwmode: bool, oc: bool, qd: bool, v1: int, v2: int, v3: int, un: int)
     check('C03.once', len(calls) == n, dict(info, calls=len(calls) - n, step=2))
 
 
-dupreg.ranges = lambda consts: dict(v1=(-1, 1), v2=(-1, 1), v3=(-1, 1), un=(0, 1))
+dupreg.ranges = lambda consts: dict(v1=(-1, 1), v2=(-1, 1), v3=(-1, 1), un=(0, 1), cp=(0, 2), route=(0, 2))
 
 
 def _ranges(consts):
